@@ -58,6 +58,56 @@ OPAQUE = {"<I as HeaderIterExt>::has", "try_parse_response", "try_parse_partial_
           "AmendedRequest::<Body>::headers_get_all", "AmendedRequest::<Body>::headers_get"}
 
 
+def _has_semantics(prog, has):
+    """run has(iter, key, value) on a concrete two-element list of symbolic (name, value) pairs.  True / False: the result
+    is / is not `exists i. name_i == key && value_i == value` on every path; None: E4 could not execute it concretely"""
+    I = mk_interp(prog, max_states=20000)
+    it = {(): TOP, (("f", "@idx"),): ("int", 0), (("f", "@n"),): ("int", 2)}
+    for i in range(2):
+        it[(("f", "#%d" % i),)] = TOP
+        it[(("f", "#%d" % i), ("f", "0"))] = ("ref", ("OBJ", "n%d" % i), ())
+        it[(("f", "#%d" % i), ("f", "1"))] = ("ref", ("OBJ", "v%d" % i), ())
+
+    def init(st):
+        for nm in ("n0", "n1", "v0", "v1", "key", "val"):
+            st.write_leaf(("OBJ", nm), (), ("term", ("in", nm)))
+    try:
+        outs = I.run(has, [it, ref(("OBJ", "key")), ref(("OBJ", "val"))], init)
+    except (PathLimit, Unsupported):
+        return None
+
+    def truth(st, a, b):
+        vals = set()
+        for k, c in st.facts.items():
+            if c[0] == "bool":
+                r = repr(k)
+                if "('in', '%s')" % a in r and "('in', '%s')" % b in r:
+                    # the atom must concern exactly this pair of operands
+                    others = [x for x in ("n0", "n1", "v0", "v1", "key", "val") if x not in (a, b) and "('in', '%s')" % x in r]
+                    if not others:
+                        vals.add(c[1] if k[0] != "not" else (not c[1]))
+        return vals
+    n = 0
+    for o in outs:
+        if o.kind != "return":
+            return None
+        l = tree_leaf(o.ret)
+        if l[0] != "int":
+            return None
+        n += 1
+        m = []
+        for i in range(2):
+            tn, tv = truth(o.state, "n%d" % i, "key"), truth(o.state, "v%d" % i, "val")
+            m.append((tn, tv))
+        if l[1] == 1:
+            if not any(tn == {True} and tv == {True} for tn, tv in m):
+                return False
+        else:
+            if not all(tn == {False} or tv == {False} for tn, tv in m):
+                return False
+    return n >= 3
+
+
 def rule_instances(ctx):
     R = "R10.1"
     prog = ctx.prog
@@ -101,8 +151,13 @@ def rule_instances(ctx):
                 loop_form = okh and n1 >= 1 and n0 >= 1
             except (PathLimit, Unsupported):
                 loop_form = False
-        ctx.check(adaptor_form or loop_form, R, "has-structure", "helper = some field has the given name and the given value "
-                  "(filter-by-name + any-value-equal, or the equivalent loop)", loc=body_loc(has))
+        sem = _has_semantics(prog, has)
+        ctx.check(sem if sem is not None else (adaptor_form or loop_form), R, "has-structure",
+                  "helper = some field has the given name and the given value (decided by running it on a two-field symbolic "
+                  "header list: true exactly on paths where one field matched both, false exactly where every field failed one "
+                  "of the two comparisons)" if sem is not None else
+                  "helper = some field has the given name and the given value (filter-by-name + any-value-equal, or the equivalent loop)",
+                  loc=body_loc(has))
     # every push site in the crate belongs to one of the recording functions below
     sites = []
     for b in prog.nonderived_bodies():
